@@ -174,6 +174,28 @@ void parity_size(struct snapraid_parity_handle* handle, data_off_t* out_size)
 	*out_size = size;
 }
 
+void parity_valid_size(struct snapraid_parity_handle* handle, data_off_t* out_size)
+{
+	unsigned s;
+	data_off_t size;
+
+	/* sum all the parity splits until the first one smaller than expected */
+	size = 0;
+
+	for (s = 0; s < handle->split_mac; ++s) {
+		struct snapraid_split_handle* split = &handle->split_map[s];
+
+		if (split->valid_size < split->size) {
+			size += split->valid_size;
+			break;
+		}
+
+		size += split->size;
+	}
+
+	*out_size = size;
+}
+
 int parity_create(struct snapraid_parity_handle* handle, const struct snapraid_parity* parity, unsigned level, int mode, uint32_t block_size, data_off_t limit_size)
 {
 	unsigned s;
